@@ -34,11 +34,18 @@ Definition pre_l4 (f : frame) : Prop :=
 Lemma opt_off_pos o : (0 < o)%nat -> opt_off o = Some o.
 Proof. intros H. unfold opt_off. destruct (Nat.eqb_spec o 0); [lia|reflexivity]. Qed.
 
-Lemma l4_agrees b f proto :
+(* data offset of a TCP segment, in bytes *)
+Definition doff (seg : bytes) : nat := N.to_nat (4 * (byte_at seg 12 / 16)).
+(* the segment's data offset is consistent, or the validator in force checks it itself *)
+Definition tcp_ok (fx : fixes) (proto : N) (seg : bytes) : Prop :=
+  fx_tcp fx = false -> proto = 6 -> (20 <= List.length seg)%nat -> (20 <= doff seg /\ doff seg <= List.length seg)%nat.
+
+Lemma l4_agrees fx b f proto :
   pre_l4 f -> (0 < f_offP f)%nat -> (f_offP f <= List.length b)%nat ->
-  agrees (parse_proto (cs b) f proto) (ref_l4 (proj f) proto (skipn (f_offP f) b) (f_offP f)).
+  tcp_ok fx proto (skipn (f_offP f) b) ->
+  agrees (parse_proto fx (cs b) f proto) (ref_l4 (proj f) proto (skipn (f_offP f) b) (f_offP f)).
 Proof.
-  intros (HU & HT & Hsp & Hdp) H0 H1. pose proof (wf_cs b) as Hwf.
+  intros (HU & HT & Hsp & Hdp) H0 H1 Htcp. pose proof (wf_cs b) as Hwf.
   unfold parse_proto, ref_l4, ipproto_table, lookup.
   destruct (proto =? 17).
   { rewrite payload_view_pos by (cbn; lia). cbn [bind set_id f_offP cs arr len].
@@ -48,14 +55,30 @@ Proof.
     rewrite udp_class_table. destruct (first_rule _ _ udp_rules); cbn [agrees]; unfold proj, with_l4;
     cbn [f_id f_src f_dst f_off4 f_off6 f_offU f_offT f_offP set_offP set_id set_ports set_offU a_mac a_ip a_port r_smac r_dmac r_sip r_dip r_ip4 r_ip6];
     rewrite (opt_off_pos (f_offP f)) by lia; rewrite HT; reflexivity. }
-  destruct (proto =? 6).
+  destruct (N.eqb_spec proto 6) as [E6|E6].
   { rewrite payload_view_pos by (cbn; lia). cbn [bind set_id f_offP cs arr len].
-    unfold tcp_is_valid, src_port, dst_port. cbn [len]. rewrite skipn_length.
-    destruct (Nat.leb_spec 20 (List.length b - f_offP f)); destruct (Nat.ltb_spec (List.length b - f_offP f) 20); try lia; cbn [bind agrees]; [|reflexivity].
-    repeat (rd; cbn [bind]). cbn [arr agrees]. unfold word_at. change (0 + 1)%nat with 1%nat. change (2 + 1)%nat with 3%nat.
-    unfold proj, with_l4;
-    cbn [f_id f_src f_dst f_off4 f_off6 f_offU f_offT f_offP set_offP set_id set_ports set_offT a_mac a_ip a_port r_smac r_dmac r_sip r_dip r_ip4 r_ip6];
-    rewrite (opt_off_pos (f_offP f)) by lia; rewrite HU; reflexivity. }
+    unfold tcp_is_valid, src_port, dst_port. cbn [len].
+    assert (Hsl : List.length (skipn (f_offP f) b) = (List.length b - f_offP f)%nat) by apply skipn_length.
+    fold (doff (skipn (f_offP f) b)). rewrite <- Hsl.
+    set (seg := skipn (f_offP f) b) in *.
+    destruct (Nat.leb_spec 20 (List.length seg)); destruct (Nat.ltb_spec (List.length seg) 20); try lia; cbn [bind agrees]; [|reflexivity].
+    assert (Hfin : agrees (sp <- be16_at {| arr := seg; len := List.length seg |} 0;;
+                           dp <- be16_at {| arr := seg; len := List.length seg |} 2;;
+                           Ok (set_ports (set_offT (set_id f PayloadTCP) (f_offP f)) sp dp))
+                          (ROk (with_l4 (proj f) 9 (word_at seg 0) (word_at seg 2) None (Some (f_offP f)) (f_offP f)))).
+    { rewrite !be16_at_ok by (unfold cap; cbn [arr]; lia). cbn [bind arr agrees].
+      unfold word_at. change (0 + 1)%nat with 1%nat. change (2 + 1)%nat with 3%nat.
+      unfold proj, with_l4;
+      cbn [f_id f_src f_dst f_off4 f_off6 f_offU f_offT f_offP set_offP set_id set_ports set_offT a_mac a_ip a_port r_smac r_dmac r_sip r_dip r_ip4 r_ip6];
+      rewrite (opt_off_pos (f_offP f)) by lia; rewrite HU; reflexivity. }
+    destruct (fx_tcp fx) eqn:Efx.
+    - rewrite idx_ok by (cbn [len]; lia). cbn [bind arr]. fold (byte_at seg 12). fold (doff seg).
+      destruct (Nat.leb_spec 20 (doff seg)); destruct (Nat.ltb_spec (doff seg) 20); try lia; cbn [andb orb bind agrees]; [|reflexivity].
+      destruct (Nat.leb_spec (doff seg) (List.length seg)); destruct (Nat.ltb_spec (List.length seg) (doff seg)); try lia; cbn [bind agrees]; [|reflexivity].
+      exact Hfin.
+    - cbn [bind]. destruct (Htcp Efx E6 ltac:(lia)) as [Hd1 Hd2].
+      destruct (Nat.ltb_spec (doff seg) 20); [lia|]. destruct (Nat.ltb_spec (List.length seg) (doff seg)); [lia|]. cbn [orb].
+      exact Hfin. }
   assert (HI : forall id t,
      agrees (p <- payload_view (cs b) f;; _ <- icmp_is_valid p;; t0 <- icmp_type p;;
              f0 <- (if t0 =? t then _ <- icmp_is_valid p;; id0 <- echo_id p;; Ok (set_echo f (Some id0)) else Ok f);;
@@ -83,40 +106,60 @@ Proof.
   destruct l as [|x xs]; [rewrite !skipn_nil; reflexivity|]. cbn [skipn Nat.add]. apply IH.
 Qed.
 
+(* IP4.IsValid (either variant) against RFC 791 consistency, outside the classes of the original variant *)
+Lemma ip4_valid_equiv (fx4 : bool) (ihl tl n : nat) :
+  (fx4 = false -> ~ ((ihl <= n)%nat /\ (tl <= n)%nat /\ (ihl < 20 \/ tl < ihl)%nat)) ->
+  ((if fx4 then Nat.leb 20 ihl else true) && Nat.leb ihl n) && ((if fx4 then Nat.leb ihl tl else true) && Nat.leb tl n)
+  = negb (Nat.ltb ihl 20 || Nat.ltb tl ihl || Nat.ltb n tl).
+Proof.
+  intros Hk.
+  destruct fx4; destruct (Nat.leb_spec 20 ihl); destruct (Nat.leb_spec ihl n); destruct (Nat.leb_spec ihl tl);
+  destruct (Nat.leb_spec tl n); destruct (Nat.ltb_spec ihl 20); destruct (Nat.ltb_spec tl ihl); destruct (Nat.ltb_spec n tl);
+  cbn; try reflexivity; try lia; exfalso; apply Hk; try reflexivity; lia.
+Qed.
+
 Lemma ip4_agrees c b f :
   f_offP f = 14%nat -> (14 <= List.length b)%nat ->
   let pkt := skipn 14 b in
   let ihl := N.to_nat (4 * (byte_at pkt 0 mod 16)) in
   let tl := N.to_nat (word_at pkt 2) in
-  ~ ((20 <= List.length pkt)%nat /\ (ihl <= List.length pkt)%nat /\ (tl <= List.length pkt)%nat /\ (ihl < 20 \/ tl < ihl)%nat) ->
+  (fx_ip4 (c_fx c) = false ->
+   ~ ((20 <= List.length pkt)%nat /\ (ihl <= List.length pkt)%nat /\ (tl <= List.length pkt)%nat /\ (ihl < 20 \/ tl < ihl)%nat)) ->
+  ((20 <= List.length pkt)%nat -> (20 <= ihl)%nat -> (ihl <= tl)%nat -> (tl <= List.length pkt)%nat ->
+   tcp_ok (c_fx c) (byte_at pkt 9) (skipn ihl pkt)) ->
   agrees (parse_ip4 c (cs b) f) (ref_ip4 (a_mac (f_src f)) (a_mac (f_dst f)) pkt 14).
 Proof.
-  intros H0 H1 pkt ihl tl Hk. pose proof (wf_cs b) as Hwf.
+  intros H0 H1 pkt ihl tl Hk Htcp. pose proof (wf_cs b) as Hwf.
   unfold parse_ip4, ref_ip4.
   rewrite payload_view_pos by (cbn; lia). cbn [bind f_offP set_id]. rewrite H0.
   unfold ip4_is_valid, ip4_ihl, ip4_totallen, ip4_protocol, ip4_src, ip4_dst, bytes_at. cbn [len cs arr].
   fold pkt. assert (Hl : List.length pkt = (List.length b - 14)%nat) by (unfold pkt; apply skipn_length).
   rewrite <- Hl.
-  destruct (Nat.leb_spec 20 (List.length pkt)); destruct (Nat.ltb_spec (List.length pkt) 20); try lia; cbn [bind agrees]; [|reflexivity].
+  destruct (Nat.leb_spec 20 (List.length pkt)) as [H20|H20]; destruct (Nat.ltb_spec (List.length pkt) 20); try lia; cbn [bind agrees]; [|reflexivity].
   rewrite idx_ok by (cbn [len]; lia). cbn [bind arr]. rewrite ihl_eq. fold (byte_at pkt 0). fold ihl. fold tl.
-  destruct (Nat.leb_spec ihl (List.length pkt)) as [Hi|Hi]; cbn [bind].
-  2:{ cbn [agrees]. destruct (Nat.ltb ihl 20 || Nat.ltb tl ihl || Nat.ltb (List.length pkt) tl) eqn:E; [reflexivity|].
-      apply Bool.orb_false_iff in E. destruct E as [E E3]. apply Bool.orb_false_iff in E. destruct E as [E1 E2].
-      apply Nat.ltb_ge in E1, E2, E3. lia. }
-  rewrite be16_at_ok by (unfold cap; cbn [arr]; lia). cbn [bind arr]. change (be16 (nth 2 pkt 0) (nth (2 + 1) pkt 0)) with (word_at pkt 2). fold tl.
-  destruct (Nat.leb_spec tl (List.length pkt)) as [Ht|Ht]; cbn [bind].
-  2:{ destruct (Nat.ltb_spec (List.length pkt) tl); [|lia]. rewrite !Bool.orb_true_r. cbn [agrees]. reflexivity. }
-  assert (Hih : (20 <= ihl)%nat) by lia. assert (Hti : (ihl <= tl)%nat) by lia.
-  destruct (Nat.ltb_spec ihl 20); [lia|]. destruct (Nat.ltb_spec tl ihl); [lia|]. destruct (Nat.ltb_spec (List.length pkt) tl); [lia|].
-  cbn [orb].
+  pose proof (ip4_valid_equiv (fx_ip4 (c_fx c)) ihl tl (List.length pkt)) as HE.
+  assert (HE' := HE ltac:(intros Ef (A & B & C); apply (Hk Ef); auto)). clear HE.
+  set (c1 := (if fx_ip4 (c_fx c) then Nat.leb 20 ihl else true) && Nat.leb ihl (List.length pkt)) in *.
+  set (c2 := (if fx_ip4 (c_fx c) then Nat.leb ihl tl else true) && Nat.leb tl (List.length pkt)) in *.
+  destruct c1 eqn:E1; cbn [bind].
+  2:{ cbn [andb] in HE'. cbn [agrees]. destruct (Nat.ltb ihl 20 || Nat.ltb tl ihl || Nat.ltb (List.length pkt) tl); [reflexivity|discriminate]. }
+  rewrite be16_at_ok by (unfold cap; cbn [arr]; lia). cbn [bind arr].
+  change (be16 (nth 2 pkt 0) (nth (2 + 1) pkt 0)) with (word_at pkt 2). fold tl. fold c2.
+  destruct c2 eqn:E2; cbn [bind].
+  2:{ cbn [andb] in HE'. cbn [agrees]. destruct (Nat.ltb ihl 20 || Nat.ltb tl ihl || Nat.ltb (List.length pkt) tl); [reflexivity|discriminate]. }
+  cbn [andb] in HE'.
+  destruct (Nat.ltb ihl 20 || Nat.ltb tl ihl || Nat.ltb (List.length pkt) tl) eqn:ES; [discriminate|].
+  apply Bool.orb_false_iff in ES. destruct ES as [ES E3]. apply Bool.orb_false_iff in ES. destruct ES as [Ea Eb].
+  apply Nat.ltb_ge in Ea, Eb, E3.
   rewrite idx_ok by (cbn [len]; lia). cbn [bind].
   rewrite !sl_ok by (unfold cap; cbn [arr]; lia). cbn [bind]. cbn [view arr len].
   change (16 - 12)%nat with 4%nat. change (20 - 16)%nat with 4%nat. fold (sub pkt 12 4). fold (sub pkt 16 4).
-  replace (skipn ihl pkt) with (skipn (14 + ihl) b) by (unfold pkt; symmetry; apply skipn_skipn_add).
+  specialize (Htcp H20 Ea Eb E3).
+  replace (skipn ihl pkt) with (skipn (14 + ihl) b) in * by (unfold pkt; symmetry; apply skipn_skipn_add).
   cbn [arr]. fold (byte_at pkt 9).
-  match goal with |- agrees (parse_proto _ ?f1 ?p) _ =>
-    change (agrees (parse_proto (cs b) f1 p) (ref_l4 (proj f1) p (skipn (f_offP f1) b) (f_offP f1))) end.
-  apply l4_agrees; [repeat split|cbn [f_offP]; lia|cbn [f_offP]; lia].
+  match goal with |- agrees (parse_proto ?fx _ ?f1 ?p) _ =>
+    change (agrees (parse_proto fx (cs b) f1 p) (ref_l4 (proj f1) p (skipn (f_offP f1) b) (f_offP f1))) end.
+  apply l4_agrees; [repeat split|cbn [f_offP]; lia|cbn [f_offP]; lia|cbn [f_offP]; exact Htcp].
 Qed.
 
 Lemma word_lt b i : bytes_ok b -> word_at b i < 65536.
@@ -128,33 +171,43 @@ Lemma ip6_agrees c b f :
   bytes_ok b -> N.of_nat (List.length b) < 65536 ->
   f_offP f = 14%nat -> (14 <= List.length b)%nat ->
   let pkt := skipn 14 b in
-  ~ ((40 <= List.length pkt)%nat /\ (40 + N.to_nat (word_at pkt 4) < List.length pkt)%nat) ->
+  (fx_ip6 (c_fx c) = false -> ~ ((40 <= List.length pkt)%nat /\ (40 + N.to_nat (word_at pkt 4) < List.length pkt)%nat)) ->
+  ((40 <= List.length pkt)%nat -> (40 + N.to_nat (word_at pkt 4) <= List.length pkt)%nat ->
+   tcp_ok (c_fx c) (byte_at pkt 6) (skipn 40 pkt)) ->
   agrees (parse_ip6 c (cs b) f) (ref_ip6 (a_mac (f_src f)) (a_mac (f_dst f)) pkt 14).
 Proof.
-  intros Hb Hn H0 H1 pkt Hk. pose proof (wf_cs b) as Hwf.
+  intros Hb Hn H0 H1 pkt Hk Htcp. pose proof (wf_cs b) as Hwf.
   unfold parse_ip6, ref_ip6.
   rewrite payload_view_pos by (cbn; lia). cbn [bind f_offP set_id]. rewrite H0.
   unfold ip6_is_valid, ip6_next_header, ip6_src, ip6_dst, bytes_at. cbn [len cs arr].
   fold pkt. assert (Hl : List.length pkt = (List.length b - 14)%nat) by (unfold pkt; apply skipn_length).
   rewrite <- Hl.
-  destruct (Nat.leb_spec 40 (List.length pkt)); destruct (Nat.ltb_spec (List.length pkt) 40); try lia; cbn [bind agrees]; [|reflexivity].
+  destruct (Nat.leb_spec 40 (List.length pkt)) as [H40|H40]; destruct (Nat.ltb_spec (List.length pkt) 40); try lia; cbn [bind agrees]; [|reflexivity].
   rewrite be16_at_ok by (unfold cap; cbn [arr]; lia). cbn [bind arr].
   change (be16 (nth 4 pkt 0) (nth (4 + 1) pkt 0)) with (word_at pkt 4).
   assert (Hw : word_at pkt 4 < 65536) by (apply word_lt; unfold pkt; apply bytes_ok_skipn; exact Hb).
-  unfold u16.
-  destruct (N.eqb_spec ((word_at pkt 4 + 40) mod 65536) (N.of_nat (List.length pkt))) as [E|E]; cbn [bind].
-  - assert (E' : (40 + N.to_nat (word_at pkt 4) = List.length pkt)%nat) by lia.
-    destruct (Nat.ltb_spec (List.length pkt) (40 + N.to_nat (word_at pkt 4))); [lia|].
-    rewrite idx_ok by (cbn [len]; lia). cbn [bind].
-    rewrite !sl_ok by (unfold cap; cbn [arr]; lia). cbn [bind]. cbn [view arr len].
-    change (24 - 8)%nat with 16%nat. change (40 - 24)%nat with 16%nat.
-    replace (skipn 40 pkt) with (skipn (14 + 40) b) by (unfold pkt; symmetry; apply skipn_skipn_add).
-    fold (byte_at pkt 6).
-    match goal with |- agrees (parse_proto _ ?f1 ?p) _ =>
-      change (agrees (parse_proto (cs b) f1 p) (ref_l4 (proj f1) p (skipn (f_offP f1) b) (f_offP f1))) end.
-    apply l4_agrees; [repeat split|cbn [f_offP]; lia|cbn [f_offP]; lia].
-  - cbn [agrees]. destruct (Nat.ltb_spec (List.length pkt) (40 + N.to_nat (word_at pkt 4))); [reflexivity|].
-    exfalso. apply Hk. split; [lia|]. lia.
+  (* the validator's verdict as a proposition *)
+  assert (HV : (if fx_ip6 (c_fx c) then Nat.leb (N.to_nat (word_at pkt 4) + 40) (List.length pkt)
+                else u16 (word_at pkt 4 + 40) =? N.of_nat (List.length pkt))
+               = negb (Nat.ltb (List.length pkt) (40 + N.to_nat (word_at pkt 4)))).
+  { destruct (fx_ip6 (c_fx c)) eqn:Ef.
+    - destruct (Nat.leb_spec (N.to_nat (word_at pkt 4) + 40) (List.length pkt));
+      destruct (Nat.ltb_spec (List.length pkt) (40 + N.to_nat (word_at pkt 4))); try lia; reflexivity.
+    - unfold u16. specialize (Hk eq_refl).
+      destruct (N.eqb_spec ((word_at pkt 4 + 40) mod 65536) (N.of_nat (List.length pkt))) as [E|E];
+      destruct (Nat.ltb_spec (List.length pkt) (40 + N.to_nat (word_at pkt 4))); try reflexivity; try lia;
+      exfalso; apply Hk; split; lia. }
+  rewrite HV. clear HV.
+  destruct (Nat.ltb_spec (List.length pkt) (40 + N.to_nat (word_at pkt 4))) as [Hs|Hs]; cbn [negb bind agrees]; [reflexivity|].
+  rewrite idx_ok by (cbn [len]; lia). cbn [bind].
+  rewrite !sl_ok by (unfold cap; cbn [arr]; lia). cbn [bind]. cbn [view arr len].
+  change (24 - 8)%nat with 16%nat. change (40 - 24)%nat with 16%nat.
+  specialize (Htcp H40 Hs).
+  replace (skipn 40 pkt) with (skipn (14 + 40) b) in * by (unfold pkt; symmetry; apply skipn_skipn_add).
+  fold (byte_at pkt 6).
+  match goal with |- agrees (parse_proto ?fx _ ?f1 ?p) _ =>
+    change (agrees (parse_proto fx (cs b) f1 p) (ref_l4 (proj f1) p (skipn (f_offP f1) b) (f_offP f1))) end.
+  apply l4_agrees; [repeat split|cbn [f_offP]; lia|cbn [f_offP]; lia|cbn [f_offP]; exact Htcp].
 Qed.
 
 Lemma arp_agrees c b f :
@@ -177,12 +230,13 @@ Proof.
   rewrite H4, H6, HU, HT, Hs, Hd, Hsp, Hdp; reflexivity.
 Qed.
 
-Lemma known_C02_none b : known_C02 b = None ->
-  k_ip4_ihl b = false /\ k_ip4_totallen b = false /\ k_ip6_trailing b = false.
+Lemma known_C02_none fx b : known_C02 fx b = None ->
+  k_ip4_ihl fx b = false /\ k_ip4_totallen fx b = false /\ k_ip6_trailing fx b = false /\ k_tcp_doff fx b = false.
 Proof.
   unfold known_C02. intros H.
-  destruct (k_ip4_ihl b); [discriminate|].
-  destruct (k_ip4_totallen b); [discriminate|]. destruct (k_ip6_trailing b); [discriminate|]. repeat split.
+  destruct (k_ip4_ihl fx b); [discriminate|].
+  destruct (k_ip4_totallen fx b); [discriminate|]. destruct (k_ip6_trailing fx b); [discriminate|].
+  destruct (k_tcp_doff fx b); [discriminate|]. repeat split.
 Qed.
 
 Lemma byte_at_skipn b a i : byte_at (skipn a b) i = byte_at b (a + i).
@@ -190,11 +244,43 @@ Proof. unfold byte_at. apply nth_skipn_add. Qed.
 Lemma word_at_skipn b a i : word_at (skipn a b) i = word_at b (a + i).
 Proof. unfold word_at. rewrite !nth_skipn_add. rewrite Nat.add_assoc. reflexivity. Qed.
 
+(* the TCP class in local terms: a segment at [off] with at least 20 bytes has a consistent data offset *)
+Lemma bad_doff_false b off :
+  bad_doff b off = false -> (20 <= List.length (skipn off b))%nat ->
+  (20 <= doff (skipn off b) /\ doff (skipn off b) <= List.length (skipn off b))%nat.
+Proof.
+  unfold bad_doff, doff. rewrite skipn_length, byte_at_skipn. intros H H20.
+  destruct (Nat.leb_spec 20 (List.length b - off)); [|lia]. cbn [andb] in H.
+  apply Bool.orb_false_iff in H. destruct H as [Ha Hb]. apply Nat.ltb_ge in Ha, Hb. lia.
+Qed.
+
+Lemma tcp_class_ip4 fx b :
+  k_tcp_doff fx b = false -> (14 <= List.length b)%nat -> N.odd (byte_at b 6) = false -> word_at b 12 = 2048 ->
+  ip4_passes fx b = true -> byte_at b 23 = 6 -> fx_tcp fx = false ->
+  bad_doff b (14 + N.to_nat (4 * (byte_at b 14 mod 16))) = false.
+Proof.
+  unfold k_tcp_doff. intros H Hn Ho He Hp H6 Hf. rewrite Hf, Ho, He, Hp, H6 in H.
+  destruct (Nat.leb_spec 14 (List.length b)); [|lia].
+  change (2048 =? 2048) with true in H. change (6 =? 6) with true in H. cbn [negb andb] in H.
+  apply Bool.orb_false_iff in H. destruct H as [H _]. exact H.
+Qed.
+
+Lemma tcp_class_ip6 fx b :
+  k_tcp_doff fx b = false -> (14 <= List.length b)%nat -> N.odd (byte_at b 6) = false -> word_at b 12 = 34525 ->
+  ip6_passes fx b = true -> byte_at b 20 = 6 -> fx_tcp fx = false ->
+  bad_doff b 54 = false.
+Proof.
+  unfold k_tcp_doff. intros H Hn Ho He Hp H6 Hf. rewrite Hf, Ho, He, Hp, H6 in H.
+  destruct (Nat.leb_spec 14 (List.length b)); [|lia].
+  change (34525 =? 2048) with false in H. change (34525 =? 34525) with true in H. change (6 =? 6) with true in H.
+  cbn [negb andb orb] in H. exact H.
+Qed.
+
 Theorem eq_ref_canon c b :
-  bytes_ok b -> N.of_nat (List.length b) < 65536 -> known_C02 b = None ->
+  bytes_ok b -> N.of_nat (List.length b) < 65536 -> known_C02 (c_fx c) b = None ->
   agrees (parse c (cs b)) (ref_decode b).
 Proof.
-  intros Hb Hn Hk. apply known_C02_none in Hk. destruct Hk as (Ki & Kt & K6).
+  intros Hb Hn Hk. apply known_C02_none in Hk. destruct Hk as (Ki & Kt & K6 & Ktcp).
   pose proof (wf_cs b) as Hwf.
   unfold parse, ref_decode, ether_is_valid. cbn [len cs].
   destruct (Nat.leb_spec 14 (List.length b)) as [Hlen|Hlen]; destruct (Nat.ltb_spec (List.length b) 14); try lia;
@@ -214,18 +300,31 @@ Proof.
     destruct (N.odd (byte_at b 6)) eqn:Ho; cbn [negb].
     { cbn [agrees]. reflexivity. }
     change (2048 <? 1536) with false. cbn [ethertype_table lookup]. change (2048 =? 2048) with true. cbv iota.
-    apply ip4_agrees; [reflexivity|exact Hlen|].
-    cbv zeta. intros (A & B & C & D).
-    unfold k_ip4_ihl, k_ip4_totallen, k_ip4_accepts in Ki, Kt. fold et in Ki, Kt. rewrite E1, Ho in Ki, Kt.
-    rewrite !byte_at_skipn in B. rewrite word_at_skipn in C. rewrite !byte_at_skipn, !word_at_skipn in D. rewrite skipn_length in A, B, C.
-    change (14 + 0)%nat with 14%nat in *. change (14 + 2)%nat with 16%nat in *.
-    destruct (Nat.leb_spec 14 (List.length b)); [|lia]. cbn [negb andb] in Ki, Kt. change (2048 =? 2048) with true in Ki, Kt. cbn [andb] in Ki, Kt.
-    destruct (Nat.leb_spec 20 (List.length b - 14)); [|lia].
-    destruct (Nat.leb_spec (N.to_nat (4 * (byte_at b 14 mod 16))) (List.length b - 14)); [|lia].
-    destruct (Nat.leb_spec (N.to_nat (word_at b 16)) (List.length b - 14)); [|lia]. cbn [andb] in Ki, Kt.
-    destruct (Nat.ltb_spec (N.to_nat (4 * (byte_at b 14 mod 16))) 20); [discriminate|].
-    destruct (Nat.leb_spec 20 (N.to_nat (4 * (byte_at b 14 mod 16)))); [|lia]. cbn [andb] in Kt.
-    destruct (Nat.ltb_spec (N.to_nat (word_at b 16)) (N.to_nat (4 * (byte_at b 14 mod 16)))); [discriminate|]. lia. }
+    apply ip4_agrees; [reflexivity|exact Hlen| |].
+    - cbv zeta. intros Ef (A & B & C & D).
+      unfold k_ip4_ihl, k_ip4_totallen, k_ip4_accepts in Ki, Kt. fold et in Ki, Kt. rewrite Ef, E1, Ho in Ki, Kt.
+      rewrite !byte_at_skipn in B. rewrite word_at_skipn in C. rewrite !byte_at_skipn, !word_at_skipn in D. rewrite skipn_length in A, B, C.
+      change (14 + 0)%nat with 14%nat in *. change (14 + 2)%nat with 16%nat in *.
+      destruct (Nat.leb_spec 14 (List.length b)); [|lia]. cbn [negb andb] in Ki, Kt. change (2048 =? 2048) with true in Ki, Kt. cbn [andb] in Ki, Kt.
+      destruct (Nat.leb_spec 20 (List.length b - 14)); [|lia].
+      destruct (Nat.leb_spec (N.to_nat (4 * (byte_at b 14 mod 16))) (List.length b - 14)); [|lia].
+      destruct (Nat.leb_spec (N.to_nat (word_at b 16)) (List.length b - 14)); [|lia]. cbn [andb] in Ki, Kt.
+      destruct (Nat.ltb_spec (N.to_nat (4 * (byte_at b 14 mod 16))) 20); [discriminate|].
+      destruct (Nat.leb_spec 20 (N.to_nat (4 * (byte_at b 14 mod 16)))); [|lia]. cbn [andb] in Kt.
+      destruct (Nat.ltb_spec (N.to_nat (word_at b 16)) (N.to_nat (4 * (byte_at b 14 mod 16)))); [discriminate|]. lia.
+    - cbv zeta. intros A B C D Eft Ep Hs.
+      rewrite byte_at_skipn in Ep. rewrite !byte_at_skipn in B, C. rewrite word_at_skipn in C, D. rewrite skipn_length in A, D.
+      change (14 + 0)%nat with 14%nat in *. change (14 + 2)%nat with 16%nat in *. change (14 + 9)%nat with 23%nat in *.
+      rewrite skipn_skipn_add in *. rewrite byte_at_skipn in *.
+      apply bad_doff_false; [|exact Hs].
+      apply (tcp_class_ip4 (c_fx c) b Ktcp Hlen Ho E1); [|exact Ep|exact Eft].
+      unfold ip4_passes.
+      destruct (Nat.leb_spec 20 (List.length b - 14)); [|lia].
+      destruct (Nat.leb_spec (N.to_nat (4 * (byte_at b 14 mod 16))) (List.length b - 14)); [|lia].
+      destruct (Nat.leb_spec (N.to_nat (word_at b 16)) (List.length b - 14)); [|lia].
+      destruct (Nat.leb_spec 20 (N.to_nat (4 * (byte_at b 14 mod 16)))); [|lia].
+      destruct (Nat.leb_spec (N.to_nat (4 * (byte_at b 14 mod 16))) (N.to_nat (word_at b 16))); [|lia].
+      destruct (fx_ip4 (c_fx c)); reflexivity. }
   destruct (N.eqb_spec et 34525) as [E2|E2].
   { rewrite E2. cbn [N.eqb orb Nat.add]. change (34525 =? 33024) with false. change (34525 =? 34984) with false.
     change (34525 =? 2048) with false. change (34525 =? 34525) with true. cbn [orb Nat.add].
@@ -233,13 +332,29 @@ Proof.
     destruct (N.odd (byte_at b 6)) eqn:Ho; cbn [negb].
     { cbn [agrees]. reflexivity. }
     change (34525 <? 1536) with false. cbn [ethertype_table lookup]. change (34525 =? 2048) with false. change (34525 =? 34525) with true. cbv iota.
-    apply ip6_agrees; [exact Hb|exact Hn|reflexivity|exact Hlen|].
-    cbv zeta. intros (A & B).
-    unfold k_ip6_trailing in K6. fold et in K6. rewrite E2, Ho in K6.
-    rewrite word_at_skipn in B. rewrite skipn_length in A, B. change (14 + 4)%nat with 18%nat in *.
-    destruct (Nat.leb_spec 14 (List.length b)); [|lia]. cbn [negb andb] in K6. change (34525 =? 34525) with true in K6. cbn [andb] in K6.
-    destruct (Nat.leb_spec 40 (List.length b - 14)); [|lia]. cbn [andb] in K6.
-    destruct (Nat.ltb_spec (40 + N.to_nat (word_at b 18)) (List.length b - 14)); [discriminate|lia]. }
+    apply ip6_agrees; [exact Hb|exact Hn|reflexivity|exact Hlen| |].
+    - cbv zeta. intros Ef (A & B).
+      unfold k_ip6_trailing in K6. fold et in K6. rewrite Ef, E2, Ho in K6.
+      rewrite word_at_skipn in B. rewrite skipn_length in A, B. change (14 + 4)%nat with 18%nat in *.
+      destruct (Nat.leb_spec 14 (List.length b)); [|lia]. cbn [negb andb] in K6. change (34525 =? 34525) with true in K6. cbn [andb] in K6.
+      destruct (Nat.leb_spec 40 (List.length b - 14)); [|lia]. cbn [andb] in K6.
+      destruct (Nat.ltb_spec (40 + N.to_nat (word_at b 18)) (List.length b - 14)); [discriminate|lia].
+    - cbv zeta. intros A B Eft Ep Hs.
+      rewrite byte_at_skipn in Ep. rewrite word_at_skipn in B. rewrite skipn_length in A, B.
+      change (14 + 4)%nat with 18%nat in *. change (14 + 6)%nat with 20%nat in *.
+      rewrite skipn_skipn_add in *. change (14 + 40)%nat with 54%nat in *.
+      apply bad_doff_false; [|exact Hs].
+      apply (tcp_class_ip6 (c_fx c) b Ktcp Hlen Ho E2); [|exact Ep|exact Eft].
+      unfold ip6_passes.
+      destruct (Nat.leb_spec 40 (List.length b - 14)); [|lia]. cbn [andb].
+      assert (Hw : word_at b 18 < 65536) by (apply word_lt; exact Hb).
+      destruct (fx_ip6 (c_fx c)) eqn:Ef.
+      + destruct (Nat.leb_spec (N.to_nat (word_at b 18) + 40) (List.length b - 14)); [reflexivity|lia].
+      + unfold k_ip6_trailing in K6. fold et in K6. rewrite Ef, E2, Ho in K6.
+        destruct (Nat.leb_spec 14 (List.length b)); [|lia]. cbn [negb andb] in K6. change (34525 =? 34525) with true in K6. cbn [andb] in K6.
+        destruct (Nat.leb_spec 40 (List.length b - 14)); [|lia]. cbn [andb] in K6.
+        destruct (Nat.ltb_spec (40 + N.to_nat (word_at b 18)) (List.length b - 14)); [discriminate|].
+        unfold u16. apply N.eqb_eq. rewrite N.mod_small by lia. lia. }
   destruct (N.eqb_spec et 2054) as [E3|E3].
   { rewrite E3. cbn [N.eqb orb Nat.add]. change (2054 =? 33024) with false. change (2054 =? 34984) with false.
     change (2054 =? 2048) with false. change (2054 =? 34525) with false. change (2054 =? 2054) with true. cbn [orb Nat.add].
@@ -279,7 +394,7 @@ Qed.
 (* Parse = reference decoder on the projected observables, for every well-formed slice (any capacity, any
    spare contents, any session configuration) outside the six recorded classes *)
 Theorem parse_eq_ref_partial c s :
-  wf s -> bytes_ok (view s) -> N.of_nat (len s) < 65536 -> known_C02 (view s) = None ->
+  wf s -> bytes_ok (view s) -> N.of_nat (len s) < 65536 -> known_C02 (c_fx c) (view s) = None ->
   agrees (parse c s) (ref_decode (view s)).
 Proof.
   intros Hwf Hb Hn Hk.
@@ -289,11 +404,11 @@ Qed.
 
 Example parse_eq_ref_nonvacuous :
   let s := of_bytes_cap ex_arp28 [170;170] in
-  wf s /\ bytes_ok (view s) /\ N.of_nat (len s) < 65536 /\ known_C02 (view s) = None /\
+  wf s /\ bytes_ok (view s) /\ N.of_nat (len s) < 65536 /\ known_C02 fx_old (view s) = None /\ known_C02 fx_new (view s) = None /\
   exists r, ref_decode (view s) = ROk r /\ r_id r = 3 /\ r_pay r = 14%nat.
 Proof.
   cbv zeta. split; [vm_compute; lia|]. split; [apply bytes_okb_spec; vm_compute; reflexivity|].
-  split; [vm_compute; reflexivity|]. split; [vm_compute; reflexivity|]. eexists. split; [vm_compute; reflexivity|]. split; reflexivity.
+  split; [vm_compute; reflexivity|]. split; [vm_compute; reflexivity|]. split; [vm_compute; reflexivity|]. eexists. split; [vm_compute; reflexivity|]. split; reflexivity.
 Qed.
 
 (* UDP over IPv4 with DNS ports: a second, deeper non-vacuity witness *)
@@ -301,18 +416,32 @@ Definition ex_dns : bytes :=
   ([0;102;102;102;102;102; 2;17;17;17;17;17; 8;0] ++
    [69;0;0;32; 0;0;0;0; 64;17;0;0; 192;168;0;7; 8;8;8;8] ++ [200;0; 0;53; 0;12; 0;0] ++ [1;2;3;4])%list.
 Example parse_eq_ref_nonvacuous_dns :
-  known_C02 ex_dns = None /\
+  known_C02 fx_old ex_dns = None /\ known_C02 fx_new ex_dns = None /\
   exists r, ref_decode ex_dns = ROk r /\ r_id r = 12 /\ r_ip4 r = Some 14%nat /\ r_udp r = Some 34%nat /\ r_pay r = 42%nat /\
             r_sport r = 51200 /\ r_dport r = 53.
-Proof. split; [vm_compute; reflexivity|]. eexists. split; [vm_compute; reflexivity|]. repeat split. Qed.
+Proof. split; [vm_compute; reflexivity|]. split; [vm_compute; reflexivity|]. eexists. split; [vm_compute; reflexivity|]. repeat split. Qed.
 
 (* C16: the offsets at which the views alias the buffer are the offsets the reference decoder computes *)
 Theorem views_at_ref_offsets c s f :
-  wf s -> bytes_ok (view s) -> N.of_nat (len s) < 65536 -> known_C02 (view s) = None -> parse c s = Ok f ->
+  wf s -> bytes_ok (view s) -> N.of_nat (len s) < 65536 -> known_C02 (c_fx c) (view s) = None -> parse c s = Ok f ->
   exists r, ref_decode (view s) = ROk r /\
     r_ip4 r = opt_off (view_off f V4) /\ r_ip6 r = opt_off (view_off f V6) /\
     r_udp r = opt_off (view_off f VU) /\ r_tcp r = opt_off (view_off f VT) /\ r_pay r = view_off f VP.
 Proof.
   intros Hwf Hb Hn Hk Hp. pose proof (parse_eq_ref_partial c s Hwf Hb Hn Hk) as H. rewrite Hp in H. cbn [agrees] in H.
   exists (proj f). split; [exact H|]. repeat split.
+Qed.
+
+(* with all three validators repaired no class is left and the equality is unconditional *)
+Lemma known_none_when_repaired b : known_C02 (mkFixes true true true) b = None.
+Proof.
+  unfold known_C02, k_ip4_ihl, k_ip4_totallen, k_ip6_trailing, k_tcp_doff. cbn [fx_ip4 fx_ip6 fx_tcp negb andb]. reflexivity.
+Qed.
+
+Theorem parse_eq_ref_repaired c s :
+  c_fx c = mkFixes true true true ->
+  wf s -> bytes_ok (view s) -> N.of_nat (len s) < 65536 ->
+  agrees (parse c s) (ref_decode (view s)).
+Proof.
+  intros Hf Hwf Hb Hn. apply parse_eq_ref_partial; auto. rewrite Hf. apply known_none_when_repaired.
 Qed.
